@@ -90,7 +90,49 @@ def kernel_health(ctx, allow_leak=False, ignore=None):
             continue      # documented: spawning into a scope that has ended
         if isinstance(x, (AssertionError, AttributeError, RuntimeError)) and from_usim_frame(x):
             out.append('%s observed internal error %s at %r' % (act, describe(x), pc))
+        elif isinstance(x, RuntimeError) and 'ignored GeneratorExit' in str(x) and not scenario_awaits_in_cleanup(ctx):
+            # raised by the interpreter in the frame that awaits the offending coroutine (ours), but the coroutine that
+            # suspended while it was being closed is the library's: no scenario cleanup suspends
+            out.append('%s was closed at %r but library code suspended again while handling the close (%s)' % (act, pc, x))
     return out
+
+
+_SILENT_OPS = ('PROBE', 'DO', 'RAISE', 'TRY', 'NOP', 'CANCEL', 'RETURN')
+
+
+def scenario_awaits_in_cleanup(ctx):
+    """does any FINALLY cleanup of the program contain an operation that may suspend?"""
+    interp = getattr(ctx, 'interp', None)
+    if interp is None:
+        return True
+    cached = getattr(ctx, '_awaits_in_cleanup', None)
+    if cached is not None:
+        return cached
+
+    def suspending(script):
+        for op in script:
+            if op[0] not in _SILENT_OPS:
+                return True
+            if op[0] == 'TRY' and suspending(op[1]):
+                return True
+        return False
+
+    def walk(script):
+        for op in script:
+            if not isinstance(op, list) or not op:
+                continue
+            if op[0] == 'FINALLY' and suspending(op[2]):
+                return True
+            for a in op[1:]:
+                if isinstance(a, list) and a and isinstance(a[0], list) and walk(a):
+                    return True
+                if isinstance(a, list) and a and isinstance(a[0], list) and a[0] and isinstance(a[0][0], list):
+                    for sub in a:
+                        if walk(sub):
+                            return True
+        return False
+    ctx._awaits_in_cleanup = any(walk(s) for _, s in interp.program['roots'])
+    return ctx._awaits_in_cleanup
 
 
 def ctx_name(ctx, task):
